@@ -199,10 +199,28 @@ pub fn run_mask_ops(l: &[i128]) -> Vec<i128> {
                 None => return vec![-4],
             };
             let aa = l[3] & 1 != 0;
+            // fill rule and transform from the seed; the reference coverage is the PRE-TRANSFORMED path filled with the
+            // identity (Mask::fill_path with a transform must equal it)
+            let rule = if (l[3] >> 1) & 1 != 0 { FillRule::EvenOdd } else { FillRule::Winding };
+            let ts = match (l[3] >> 2) & 3 {
+                0 => Transform::identity(),
+                1 => Transform::from_translate(3.0, -2.0),
+                2 => Transform::from_row(1.5, 0.0, 0.0, 0.75, 1.0, 2.0),
+                _ => Transform::from_row(0.0, 1.0, -1.0, 0.0, h as f32, 0.0),
+            };
+            let moved = match path.clone().transform(ts) {
+                Some(p) => p,
+                None => return vec![-4],
+            };
             let mut fresh = Mask::new(w, h).unwrap();
-            fresh.fill_path(&path, FillRule::Winding, aa, Transform::identity());
+            fresh.fill_path(&moved, rule, aa, Transform::identity());
+            let mut direct = Mask::new(w, h).unwrap();
+            direct.fill_path(&path, rule, aa, ts);
+            for i in 0..old.len() {
+                judge(i, direct.data()[i] as f64, fresh.data()[i] as f64, 0.0);
+            }
             let mut m = Mask::from_vec(old.clone(), IntSize::from_wh(w, h).unwrap()).unwrap();
-            m.intersect_path(&path, FillRule::Winding, aa, Transform::identity());
+            m.intersect_path(&path, rule, aa, ts);
             for i in 0..old.len() {
                 judge(i, m.data()[i] as f64, old[i] as f64 * fresh.data()[i] as f64 / 255.0, 0.51);
             }
